@@ -1,6 +1,7 @@
 package main
 
 import (
+	"sort"
 	"fmt"
 	"go/token"
 	"go/types"
@@ -439,7 +440,7 @@ func (g *FnGen) applyContract(fc *FuncContract, pc *PkgContracts, c *ssa.CallCom
 		// a postcondition with a recorded (unrepaired) finding is known to be false for some inputs: a caller may rely on
 		// it only for the input class the finding does not cover (its `except`), and not at all when there is none
 		if pc != nil {
-			if skip, guards := knownClauseGuards(pc.PkgPath, fc.Name, en.Label, k); skip {
+			if skip, guards := knownClauseGuards(pc.PkgPath, fc, en, k); skip {
 				g.note("callee postcondition with a recorded finding is not assumed at the call: " + fc.Name + " / " + en.Src)
 				continue
 			} else if len(guards) > 0 {
@@ -465,7 +466,8 @@ var knownClauseCache map[string][]KnownFinding
 
 // knownClauseGuards: recorded findings (status known) against a postcondition of the callee: skip = some finding has no
 // residual condition; otherwise the residual conditions of all of them.
-func knownClauseGuards(pkgPath, fn, label string, ord int) (skip bool, guards []string) {
+func knownClauseGuards(pkgPath string, fc *FuncContract, en Clause, ord int) (skip bool, guards []string) {
+	fn, label := fc.Name, en.Label
 	if knownClauseCache == nil {
 		knownClauseCache = map[string][]KnownFinding{}
 		if kf, err := loadKnown(); err == nil {
@@ -486,12 +488,72 @@ func knownClauseGuards(pkgPath, fn, label string, ord int) (skip bool, guards []
 	if label != "" {
 		key = fmt.Sprintf("%s.%s/post:%s", short, fn, label)
 	}
-	for _, f := range knownClauseCache[key] {
+	cands := append([]KnownFinding{}, knownClauseCache[key]...)
+	// a recorded finding against a loop invariant of the callee leaves every postcondition proved "given the invariant"
+	// without support for the inputs the finding covers
+	// ... unless the postcondition selects its hypotheses (`uses`) and none of the invariants it rests on, directly or
+	// through their own `uses` lists, is one with a finding
+	var support map[string]bool
+	if en.HasUses {
+		support = map[string]bool{}
+		work := append([]string{}, en.Uses...)
+		closed := true
+		for len(work) > 0 {
+			l := work[0]
+			work = work[1:]
+			if support[l] {
+				continue
+			}
+			support[l] = true
+			found := false
+			for _, ls := range fc.Loops {
+				for _, inv := range ls.Invariants {
+					if inv.Label == l {
+						found = true
+						if !inv.HasUses {
+							closed = false // rests on every invariant of the loop
+						}
+						work = append(work, inv.Uses...)
+					}
+				}
+			}
+			if !found && !strings.HasPrefix(l, "post:") {
+				closed = false
+			}
+		}
+		if !closed {
+			support = nil
+		}
+	}
+	prefix := fmt.Sprintf("%s.%s/loop", short, fn)
+	for name, fs := range knownClauseCache {
+		if !strings.HasPrefix(name, prefix) {
+			continue
+		}
+		if support != nil {
+			if i := strings.Index(name, "/inv:"); i >= 0 {
+				l := name[i+5:]
+				if j := strings.Index(l, "/"); j >= 0 {
+					l = l[:j]
+				}
+				if !support[l] {
+					continue
+				}
+			}
+		}
+		cands = append(cands, fs...)
+	}
+	seen := map[string]bool{}
+	for _, f := range cands {
 		if f.Except == "" {
 			return true, nil
 		}
-		guards = append(guards, f.Except)
+		if !seen[f.Except] {
+			seen[f.Except] = true
+			guards = append(guards, f.Except)
+		}
 	}
+	sort.Strings(guards)
 	return false, guards
 }
 
